@@ -144,6 +144,26 @@ family(
 )
 
 
+# ---- levels: a pipeline a <- b mounted `as lo` below a config whose task `top` reads lo::b (a by-name input from an
+#      inner namespace) and its own a; the inner pipeline alone is a configuration too (results shared across chains)
+family(
+    'levels',
+    tasks=[
+        _t('a', [P('x')]),
+        _t('b', [], [('a', 'class')], ['a']),
+        _t('top', [], [('lo::b', 'name'), ('a', 'class')], ['a'], registry_pulls=['lo::b']),
+    ],
+    rcs={
+        'v1': dict(build='nested-files', mounts=[dict(ns=None, values={'x': 1}, tasks=['a', 'b'])]),
+        'v2': dict(build='nested-files', mounts=[dict(ns=None, values={'x': 2}, tasks=['a', 'top']),
+                                                 dict(ns='lo', values={'x': 1}, tasks=['a', 'b'])]),
+        'v3': dict(build='nested-files', mounts=[dict(ns=None, values={'x': 2}, tasks=['a', 'top']),
+                                                 dict(ns='lo', values={'x': 2}, tasks=['a', 'b'])]),
+    },
+    lists=[['v1'], ['v2'], ['v3'], ['v1', 'v2'], ['v2', 'v3']],
+)
+
+
 # --------------------------------------------------------------------------- expected resolution (P-level)
 def task_by_slug(fam):
     return {t['slug']: t for t in fam['tasks']}
@@ -154,7 +174,11 @@ def _short(slug):
 
 
 def resolve_slug(fam, ref):
-    """A declared input reference (slug, or a short name) -> slug, inside one pipeline."""
+    """A declared input reference (slug, or a short name) -> slug, inside one pipeline.  A reference into an inner
+    namespace ('lo::b') keeps its namespace part."""
+    if '::' in ref:
+        nsp, _, r = ref.rpartition('::')
+        return f'{nsp}::{resolve_slug(fam, r)}'
     slugs = [t['slug'] for t in fam['tasks']]
     if ref in slugs:
         return ref
@@ -204,6 +228,8 @@ def desc(res, node, name_mode=False):
 def config_name(rcname, rc, i):
     """the name of the config that declares the tasks of mount i (as build_config realises it)"""
     b = rc['build']
+    if b == 'nested-files':
+        return rcname if i == 0 else f'{rcname}_m{i}'
     return {'dict': rcname, 'file': rcname, 'context': f'{rcname}_pipe', 'mounts-files': f'{rcname}_m{i}',
             'mounts-ctx': f'{rcname}_pipe', 'mounts-ctx-multi': f'{rcname}#pipe', 'uses-common': rcname}[b]
 
@@ -299,7 +325,7 @@ def module_for(fam):
         by = {t['slug']: t for t in specs}
         for t in specs:
             names = list(t['pulls']) + list(t.get('registry_pulls', []))
-            t['input_kinds'] = {a: by[resolve_slug(fam, a)]['kind'] for a in names}
+            t['input_kinds'] = {a: by[resolve_slug(fam, a).split('::')[-1]]['kind'] for a in names}
         _modules[fam['name']] = gen.make_module(specs, fam['module'])
     return _modules[fam['name']]
 
@@ -337,6 +363,19 @@ def build_config(fam, rcname, base_dir, workdir, variant=0):
         f.write_text(json.dumps({'tasks': [s_ for s_, c in zip(strings, classes) if c._vspec['slug'] in own['tasks']],
                                  'uses': [str(common)], **own['values']}))
         return Config(base_dir, f)
+    if build == 'nested-files':
+        # mount i is the file <rc>_m<i>.json (the root: <rc>.json) declaring the mount's own task set; a file uses the
+        # mounts directly below it `as <last namespace component>`
+        files = {m['ns']: workdir / (f'{rcname}.json' if i == 0 else f'{rcname}_m{i}.json') for i, m in enumerate(rc['mounts'])}
+        for m in rc['mounts']:
+            mine = [f"{fam['module']}.{mod.CLASSES[t['slug']].__name__}" for t in fam['tasks']
+                    if 'tasks' not in m or t['slug'] in m['tasks']]
+            doc = {'tasks': mine, **m['values']}
+            below = [n for n in files if n is not None and (n.rpartition('::')[0] or None) == m['ns']]
+            if below:
+                doc['uses'] = [f"{files[n]} as {n.rpartition('::')[2]}" for n in below]
+            files[m['ns']].write_text(json.dumps(doc))
+        return Config(base_dir, files[None])
     if build == 'mounts-files':
         uses = []
         for i, m in enumerate(rc['mounts']):
